@@ -194,7 +194,15 @@ def dispatched_cases(rng, n):
         lab = sd.Lab(16384)
         acc = nd.new_acceptor(lab.ae, lab.assoc.dul, 16384)
         acc.association_established = True
-        lab.ae.supported_scp = {VERIF: sopclass.verification_scp, FIND: sopclass.qr_find_scp, CT: sopclass.storage_scp}
+        handed = []
+
+        def recording(service, _h=handed):
+            def serve(asce, ctx, msg):
+                _h.append((ctx.id, str(ctx.sop_class), str(ctx.supported_ts)))
+                return service(asce, ctx, msg)
+            return serve
+        lab.ae.supported_scp = {VERIF: recording(sopclass.verification_scp), FIND: recording(sopclass.qr_find_scp),
+                                CT: recording(sopclass.storage_scp)}
         lab.ae.supported_ts = frozenset(TS2)
         classes = [VERIF, FIND, CT]
         rng.shuffle(classes)
@@ -247,8 +255,24 @@ def dispatched_cases(rng, n):
         except Exception as e:  # noqa
             err = '%s: %s' % (type(e).__name__, e)
         got = [(r['pc'], r['mid_resp'], r['sop']) for r in lab.sent() if 'cf' in r]
+        table = [(v[0], str(v[1]), str(v[2])) for v in acc.sop_classes_as_scp.values()]
+        # one response per request for the Coq case (the second C-FIND response repeats the context of the first)
+        answered = []
+        last = None
+        for pc_, mid_, _sop in got:
+            if (pc_, mid_) != last:
+                answered.append(pc_)
+            last = (pc_, mid_)
+        term = '(mkdc %s %s %s %s %s)' % (
+            clist([cbytes(u.encode()) for u in (VERIF, FIND, CT)]),
+            clist(['(%d, %s, %s)' % (i, cbytes(c.encode()), cbytes(t.encode())) for i, c, t in table]),
+            clist(['(%d, %s)' % (pc, cbytes(c.encode())) for pc, c, _t in order]),
+            clist(['(Some (%d, %s, %s))' % (i, cbytes(c.encode()), cbytes(t.encode())) for i, c, t in handed]
+                  + ['None'] * (len(order) - len(handed))),
+            clist([str(x) for x in answered]))
         out.append(dict(proposals=[(i, c, t[0]) for i, c, t in proposals], arrival_order=[(pc, c) for pc, c, _t in order],
-                        error=err, expected=want, responses=got, ok=(err is None and got == want)))
+                        error=err, expected=want, responses=got, handed=handed, table=table, term=term,
+                        ok=(err is None and got == want)))
     return out
 
 
@@ -263,9 +287,21 @@ def main_c17(tier, seed):
     obs += get_scu_cases(rng, 40 if tier == 'quick' else 400, as_c17=True)
     disp = dispatched_cases(rng, 12 if tier == 'quick' else 120)
     dec._dispatched = dict(cases=len(disp), requests=sum(len(d['arrival_order']) for d in disp), failing=sum(1 for d in disp if not d['ok']))
-    for d in disp:
-        if not d['ok']:
-            dec.report(dict(d, kind='response-not-on-the-context-of-its-request'))
+    drun = common.CoqRun('C17')
+    fd, bd, od, kd = common.run_sharded(drun, 'Disp', 'From PND Require Import Lib.Text Model.Dispatch Corr.CorrDispatch.\n', 'dcase',
+                                        [d['term'] for d in disp], [('corr', 'disp_corr'), ('spec', 'disp_spec')], size=20)
+    dec.obligations(od, kd)
+    bad_spec = set(fd['spec'])
+    for k, d in enumerate(disp):
+        rec = dict((a, b) for a, b in d.items() if a != 'term')
+        if not d['ok'] or k in bad_spec:
+            dec.report(dict(rec, kind='response-not-on-the-context-of-its-request'))
+        elif k in fd['corr']:
+            dec.report(dict(rec, kind='model-differs', theorem='correspondence disp_corr (Model.Dispatch vs _loop)'), no_input=True)
+    for name, out in bd:
+        dec.report(dict(kind='case-file-broken', file=name, detail=out), no_input=True)
+    drun.keep = bool(dec.violations)
+    drun.cleanup()
     return finish(dec, 'C17', obs, 'pcase', [('corr', 'svc_corr'), ('spec', 'svc_spec')],
                   ('every provider callable x message ids {0,1,255,256,65535,random} x context ids x SOP class / instance '
                    'UIDs (lengths 1..64) x handler outcomes (success, warning, failures, EventHandlingError) x result list '
